@@ -7,6 +7,24 @@ import subprocess
 ROOT = os.path.dirname(os.path.dirname(os.path.abspath(__file__)))
 
 CHECKS = {
+    "C01": dict(
+        level="model_checking",
+        technique="TLA+ transcription of GM/T 0003.2 checked exhaustively by TLC on toy prime-order groups (SM2Toy: completeness, soundness, nonce->r, every retry branch reachable) and evaluated on the real curve (SM2.tla over BigNat/ECurve/SM3, anchored by the GM/T 0003.5 Appendix A example); every TLC case replayed into the real sm2 functions (toy cases through an elliptic.Curve built from TLC's point table)",
+        text="On a 29-point (thorough: also 103-point) curve TLC enumerates every private key, every digest residue and every nonce, proves on the specification that every emitted signature verifies, that the accepted (r,s) are exactly the emitted ones, and that r=0 / r+k=n / s=0 are reachable; the real Sm2Sign must return the same (r,s) after the same number of draws and Sm2Verify/Verify must accept exactly the same set among all (r,s) in [0,n]^2. On the real curve TLC computes ZA, e, (r,s) for scripted nonces over boundary keys, keys with short coordinates (found by TLC), ids absent/default/1/8191 bytes, message lengths to 64 KiB, and the verdict for 16 perturbations of each valid tuple; DER strictness is tried on 10 malformations.",
+        note="Trusts TLC, BigInteger under BigNat, SM3.tla. The toy curve in the harness is a table lookup in TLC's XY table. Candidates whose verification meets the point at infinity are left unspecified.",
+        ref="DESIGN.md section 5 C01"),
+    "C02": dict(
+        level="model_checking",
+        technique="TLA+ transcription of GM/T 0003.4 (SM2.tla: KDF, C1/C2/C3, retry on zero key stream, on-curve requirement) evaluated by TLC, anchored by the standard's encryption example; expected ciphertexts, a TLC-found nonce that forces the retry, and TLC-built invalid-curve ciphertexts replayed into Encrypt/Decrypt/EncryptAsn1/DecryptAsn1",
+        text="TLC computes the exact ciphertext (both orderings and the ASN.1 form) for scripted nonces over boundary and short-coordinate keys and lengths 0, 1, 31..33, 63..65, 4096 (dense in thorough); it searches a nonce whose KDF byte is zero so that the real Encrypt must draw twice; decryption must return the plaintext for the right key and an error for another key, every tried single-byte change, every truncation, and for ciphertexts that TLC builds on curves with another b.",
+        note="Trusts TLC, BigInteger, SM3.tla. Exhaustive toy-group enumeration is done for signatures (C01) only.",
+        ref="DESIGN.md section 5 C02"),
+    "C03": dict(
+        level="exploration",
+        technique="TLA+ affine group law over BigNat (ECurve.tla, self-checked: G on curve, [n]G=O) as oracle; ECWalk state machine with the discrete log tracked by the specification (forces doubling / cancellation / infinity); ECTab table cases; limb-boundary field elements and the comb table through verif accessors (table conformance)",
+        text="Every catalogue scalar (0, tiny, n-20..n+16, 2n, 2n+1, 2^k, all-ones strings of 1..40 bytes, leading zeros, empty, 40 bytes, pseudo-random) goes through ScalarBaseMult and ScalarMult on four points; all two-call walks over Add (catalogue point, the same point, the opposite point, infinity) / Double / ScalarMult / ScalarBaseMult / IsOnCurve probes plus simulated longer walks; GenerateKey for eight reader contents incl. a reader that runs dry; the published parameters; 300 (3000) limb-boundary field elements through mul/square/add/sub; all 30 comb-table entries against [2^(64j+32t)]G.",
+        note="Arithmetic correctness is decided on the enumerated elements only (numeric accuracy is where this technique is weakest). Known finding field-square-carry is listed by failing input in known_findings.json.",
+        ref="DESIGN.md section 5 C03"),
     "C04": dict(
         level="model_checking",
         technique="executable TLA+ transcription of GM/T 0004 (SM3.tla, KAT-checked) evaluated by TLC as oracle; HashObj state machine model-checked; all TLC-generated Write/Sum/Reset behaviours replayed on sm3.New() and every event validated by TLC (HashObjTrace); HMAC/PBKDF2 tables from TLC compared with crypto/hmac and x/crypto/pbkdf2 over sm3.New",
